@@ -108,7 +108,8 @@ def replay(chk, path):
         print("replay file has no abstract case; re-run the check with VERIF_SEED=%s" % v.get("seed"))
         return 2
     p = vplib.write_ndjson(os.path.join(vplib.sub("c09"), "one.ndjson"), [v["case"]])
-    res = vplib.vh("rev", ["replay", "--in", p, "--seed", str(chk.seed)])
+    sub = "seq3" if isinstance(v["case"], dict) and "steps" in v["case"] else "replay"     # shared-update sequences have their own command
+    res = vplib.vh("rev", [sub, "--in", p, "--seed", str(chk.seed)])
     for x in res["violations"]:
         print("VIOLATION property=C09 replay=%s  # %s" % (path, x["what"]))
     return 1 if res["violations"] else 0
